@@ -195,7 +195,7 @@ func kindAllowed(kinds []string, k string) bool {
 	// assumed after the loop head must be established and kept, a callee's postcondition may only be
 	// used where its precondition was shown
 	switch k {
-	case "inv-init", "inv-keep", "callee-pre":
+	case "inv-init", "inv-keep", "callee-pre", "lock-released":
 		return true
 	}
 	for _, x := range kinds {
